@@ -4,6 +4,7 @@
    The writer model is compared character-for-character with the real .vcd body on every run, and the
    reader (`decode`) is run on the real file against the values sampled in the simulator (harness/c16.py). *)
 From PV Require Import Base.Prelude Trace.Vcd Trace.VcdProofs.
+(* stdlib strings *)
 From Coq Require Import Strings.Ascii Strings.String.
 Open Scope Z_scope.
 
@@ -21,7 +22,7 @@ Proof. exact (to_vcd_str_one_bit u). Qed.
 Theorem C16_multi_bit_form n u : n <> 1 ->
   to_vcd_str n u = String "b"%char (bits_msb (Z.to_nat n) u ++ String " "%char EmptyString)%string
   /\ String.length (bits_msb (Z.to_nat n) u) = Z.to_nat n.
-Proof. intros H. split; [exact (to_vcd_str_multi_bit n u H)|exact (bits_msb_length _ u)]. Qed.
+Proof. exact (to_vcd_str_multi_bit_form n u). Qed.
 
 (* the identifier-code generator never gives two nets the same code *)
 Theorem C16_symbol_inj n m : 0 <= n -> 0 <= m -> symbol_of n = symbol_of m -> n = m.
